@@ -74,4 +74,52 @@ theorem see_cc (ls : List Lbl) (g : Seen) :
     rw [List.foldl_cons, ih]
     cases l <;> simp [see]
 
+/-- in a system of calls every component evolves exactly by its own labels -/
+theorem runSys_proj (tr : List (Nat × Lbl)) :
+    ∀ (ss ss' : List S), runSys ss tr = some ss' →
+      ss'.length = ss.length ∧
+      ∀ j s0, ss[j]? = some s0 → ∃ s, ss'[j]? = some s ∧ run s0 (proj j tr) = some s := by
+  induction tr with
+  | nil =>
+    intro ss ss' h
+    simp only [runSys, Option.some.injEq] at h
+    subst h
+    exact ⟨rfl, fun j s0 h0 => ⟨s0, h0, by simp [proj, run]⟩⟩
+  | cons il tr ih =>
+    obtain ⟨i, l⟩ := il
+    intro ss ss' h
+    simp only [runSys] at h
+    cases hst : stepAt ss i l with
+    | none => simp [hst] at h
+    | some mid =>
+      simp only [hst] at h
+      have ⟨hlen, hcomp⟩ := ih mid ss' h
+      unfold stepAt at hst
+      cases hi : ss[i]? with
+      | none => simp [hi] at hst
+      | some si =>
+        simp only [hi, Option.map_eq_some_iff] at hst
+        obtain ⟨si', hstep, hmid⟩ := hst
+        subst hmid
+        refine ⟨by simpa using hlen, ?_⟩
+        intro j s0 h0
+        by_cases hij : i = j
+        · subst hij
+          have hs0 : si = s0 := by rw [hi] at h0; exact Option.some.inj h0
+          subst hs0
+          have hget : (ss.set i si')[i]? = some si' := by
+            have : i < ss.length := by
+              rcases List.getElem?_eq_some_iff.mp hi with ⟨hlt, _⟩; exact hlt
+            simp [List.getElem?_set_self this]
+          obtain ⟨s, hs, hr⟩ := hcomp i si' hget
+          refine ⟨s, hs, ?_⟩
+          simp only [proj, List.filter_cons, beq_self_eq_true, if_true, List.map_cons, run, hstep]
+          exact hr
+        · have hget : (ss.set i si')[j]? = some s0 := by
+            rw [List.getElem?_set_ne hij]; exact h0
+          obtain ⟨s, hs, hr⟩ := hcomp j s0 hget
+          refine ⟨s, hs, ?_⟩
+          have : (i == j) = false := by simpa using hij
+          simpa [proj, List.filter_cons, this] using hr
+
 end Haiway.Timeout
